@@ -28,6 +28,8 @@ TRUSTED = ['Model/TracePipeline.lean written statement by statement like PyKdebu
            'tests them against CPython)',
            'Model/Trace.lean (whole TracesParser), Model/Filters.lean (event-level filter), Model/Callstacks.lean as tied by '
            'their own properties (C05/C07/C08/C20, C12, C15)',
+           'callstacks_request_rests_on_ir is about the hand-written copy Spec/PyIRCsExpected of the IR of callstacks() / '
+           'CallstacksParser; that the copy is what tools/gen_pyir.py generates from the working tree is an obligation of C15',
            'the version-2 container parser is replaced in the model by its result (thread map + records; C02)']
 ASSUMPTIONS = ['a request\'s generator is consumed to its end (or to the exception): the generators are lazy, an unconsumed '
                'request does nothing',
@@ -756,13 +758,17 @@ LEVEL_TEXT = ('Lean theorems over the object-state model of PyKdebugParser.trace
               'configuration the translated traces(), interpreted, hands kevents effectiveClasses on a COPY, leaves the filter '
               'attributes alone and its stages keep exactly postFilter), filter_process_callback_ir_eq_model, '
               'traces_request_rests_on_ir (fedEvents / traces of the model are the interpreted source around the TracesParser '
-              'model).')
+              'model); callstacks_request_rests_on_ir (the request model TracePipeline.callstacks - image lists reset, then '
+              'callstackFeed - is the IR of PyKdebugParser.callstacks + CallstacksParser of Spec/PyIRCsExpected, interpreted on '
+              'the trace objects of the traces model; that this IR is the one generated from the source is '
+              'C15.source_is_expected_ir, rebuilt by the C15 check).')
 LEVEL_NOTE = ('traces_commute_class compares handler, first record, payload, text and decoded fields (not the event list, which '
               'loses the records of other classes; not thread-terminate\'s text: K3b) and assumes a code table closed under the '
               'filter (checked for the bundled table at run time).  The process filter commutes only under an explicit '
               'hypothesis: known finding K3 (attribution records removed by the event-level filter).  Out of the claim: '
               'subclasses of the helper classes (K13).  Translation tie: trusted are the translator tools/gen_pyir_fl.py and the '
-              'interpreter Model/PyIRFl (tested against CPython by the section traces-ir); TracesParser, the container parser and '
-              'callstacks() stay hand-modelled.')
+              'interpreter Model/PyIRFl (tested against CPython by the section traces-ir); TracesParser and the container parser '
+              'stay hand-modelled; callstacks() is tied through C15 (tools/gen_pyir.py, Model/PyIRCs; this check does not rebuild '
+              'that translation, so a change of callstacks_parser.py alone never breaks an obligation here).')
 TECHNIQUE = ('Lean 4 proofs over an explicit object-state model + translation validation of traces() / _filter_process_callback '
              '+ differential correspondence + oracle computed on the real code')
